@@ -26,6 +26,7 @@ func init() {
 			{"C03.R4", "q", "shared: indexes discarded first", c03r4},
 			{"C18.R4", "q", "shared: deferred endGCWriting", c18r4},
 			{"C13.R9", "q", "shared: a colliding key in the hint buffer is reported to GC", c13r9},
+			{"C04.L9", "q", "shared: lock contracts of helpers", c04l9},
 		},
 	})
 }
